@@ -22,8 +22,45 @@ Record run := {
   r_levels : list (list Z);       (* Go: Flamebearer.Levels (delta encoded, flat) *)
   r_numticks : Z;
   r_maxself : Z;
-  r_minval : N                    (* Go: Tree.minValue(budget) *)
+  r_minval : N;                   (* Go: Tree.minValue(budget) (direct runs only) *)
+  r_param : option bytes;         (* None: FlamebearerStruct(r_max) was called directly.
+                                     Some s: the flamebearer came from GET /render?format=json on the real server and
+                                     s is the raw value of the max-nodes query parameter ("" when absent) *)
+  r_default : nat                 (* /render runs: config MaxNodesRender in force *)
 }.
+
+(* strconv.Atoi: optional sign, at least one decimal digit, nothing else, value within int64 *)
+Definition is_digit (b : N) : bool := (48 <=? b)%N && (b <=? 57)%N.
+Fixpoint digits_val (acc : Z) (s : bytes) : option Z :=
+  match s with
+  | [] => Some acc
+  | b :: s' => if is_digit b then digits_val (acc * 10 + Z.of_N (b - 48))%Z s' else None
+  end.
+Definition atoi (s : bytes) : option Z :=
+  let '(neg, ds) := match s with
+                    | 43%N :: r => (false, r)
+                    | 45%N :: r => (true, r)
+                    | _ => (false, s)
+                    end in
+  match ds with
+  | [] => None
+  | _ => match digits_val 0%Z ds with
+         | None => None
+         | Some v => let v' := if neg then (- v)%Z else v in
+                     if Z.leb (- 9223372036854775808)%Z v' && Z.ltb v' 9223372036854775808%Z then Some v' else None
+         end
+  end.
+
+(* the budget the property expects to be in force: the max-nodes parameter when it is an integer > 0,
+   the configured default otherwise (absent, 0, negative, junk) *)
+Definition eff_budget (r : run) : nat :=
+  match r_param r with
+  | None => r_max r
+  | Some s => match atoi s with
+              | Some v => if Z.ltb 0 v then Z.to_nat v else r_default r
+              | None => r_default r
+              end
+  end.
 
 Record case := { c_tree : tnode; c_runs : list run }.
 
@@ -131,7 +168,9 @@ Definition check_run (t : tnode) (r : run) : list verdict :=
   match decode_levels (r_levels r) with
   | None => [SpecFails "a level is not a sequence of 4-number bars"]
   | Some lv =>
-    let th := if consistent then theta_spec (r_max r) t else r_minval r in
+    let budget := eff_budget r in
+    let direct := match r_param r with None => true | Some _ => false end in
+    let th := if consistent then theta_spec budget t else r_minval r in
     [ (* --- the property evaluated on what the implementation returned --- *)
       spec (Z.eqb (r_numticks r) total) "numTicks is not the root total";
       spec (names_ok (r_names r) lv) "a name index is out of range or names[0] is not 'total'";
@@ -143,8 +182,8 @@ Definition check_run (t : tnode) (r : run) : list verdict :=
       spec (list_eqb (list_eqb sbar_eqb) (map (map (resolve (t_name t) (r_names r))) lv) (spec_levels th t))
            "bars are not exactly the frames reaching the threshold plus one 'other' bar per parent for the rest";
       (* --- model vs implementation --- *)
-      corr (N.eqb (t_minval (r_max r) t) (r_minval r)) "t_minval model differs from Tree.minValue";
-      (let m := flamebearer (r_max r) t in
+      corr (negb direct || N.eqb (t_minval budget t) (r_minval r)) "t_minval model differs from Tree.minValue";
+      (let m := flamebearer budget t in
        corr (list_eqb beqb (fb_names m) (r_names r)
              && list_eqb (list_eqb Z.eqb) (fb_levels m) (r_levels r)
              && Z.eqb (Z.of_N (fb_numticks m)) (r_numticks r)
